@@ -459,6 +459,63 @@ def check_same_probability(graph, event, event2, seed, n_models=8, max_card=3):
     return None
 
 
+def check_parents_represented(graph, event, nodes, di, seed, n_models=4, max_card=3):
+    """The clause "the produced graph contains exactly the ancestors of the relabelled event", read from the property
+    statement and NOT from the produced graph's own edges: a node V_w of the produced graph that its own world does not fix
+    must have, for every parent P of V in the causal diagram, exactly one parent node that is a copy of P, and that copy must
+    be -- on the event -- the same random variable as P_w in every sampled functional SCM; it has no other parents; a node
+    fixed by its world has no parents.  (With this, "ancestors inside the produced graph" are the ancestors in the models.)
+
+    nodes / di: the produced graph (encoded variables).  Returns None or a description of the first violation."""
+    import json as _json
+
+    key = _json.dumps
+    pa_g = {v: sorted({int(u) for u, w in graph["di"] if int(w) == v}) for v in graph["nodes"]}
+    parents = {}
+    for u, w in di:
+        parents.setdefault(key(w), []).append(u)
+    copies = []
+    for x in nodes:
+        name = int(x[1])
+        world = {int(n) for n, _ in x[4]}
+        ps = parents.get(key(x), [])
+        if name in world:
+            if ps:
+                return f"node {x} is fixed by its own world but has the parents {ps}"
+            continue
+        for p_name in pa_g.get(name, []):
+            cands = [p_ for p_ in ps if int(p_[1]) == p_name]
+            if len(cands) != 1:
+                return (f"node {x}: the parent {p_name} of {name} in the causal diagram is represented by {len(cands)} parent "
+                        "nodes of the produced graph (exactly one is required): the graph does not contain the ancestors of "
+                        "the relabelled event")
+            copies.append((x, p_name, cands[0]))
+        extra = [p_ for p_ in ps if int(p_[1]) not in pa_g.get(name, [])]
+        if extra:
+            return f"node {x} has the parents {extra}, which are not copies of parents of {name} in the causal diagram"
+    if not copies:
+        return None
+    rng = random.Random(seed)
+    for k in range(n_models):
+        m = Fscm(graph["nodes"], graph["di"], graph["bi"], rng, max_card=2 if k < n_models // 2 else max_card)
+        nu = rand_nu(m, rng)
+        items = [(m.idx[v], m.solutions(do), val) for v, do, val in event_items(event, nu)]
+        support = [i for i in range(len(m.space)) if all(sol[i][vi] == val for vi, sol, val in items)]
+        if not support:
+            continue
+        for x, p_name, cp in copies:
+            do_x = tuple(sorted((int(n), nu[int(n)][_star(s_)]) for n, s_ in x[4]))
+            do_p = tuple(sorted((int(n), nu[int(n)][_star(s_)]) for n, s_ in cp[4]))
+            if do_x == do_p:
+                continue
+            sx, sp, j = m.solutions(do_x), m.solutions(do_p), m.idx[p_name]
+            for i in support:
+                if sx[i][j] != sp[i][j]:
+                    return (f"node {x}: its parent node {cp} is not the same random variable as {p_name} in the world of {x} on "
+                            f"the event (noise point {i}: {sp[i][j]} vs {sx[i][j]}); cards {m.card}, nu {nu}")
+    return None
+
+
 def model_sexp(m: Fscm):
     """the model in the line-protocol encoding of the `cf fscm_prob` driver op (Y0/Spec/Fscm.lean evaluates it)"""
     exo_pos = {k: i for i, k in enumerate(m.exo)}
